@@ -378,6 +378,23 @@ func c16Run(rc *RunCtx, params any) {
 				return 4, nil
 			})
 		}
+		// state accessors called concurrently with Read / Write / Close / deadline setters
+		for _, ep := range []string{"c", "s"} {
+			ep := ep
+			ops.start("Accessors", ep, func() (int, error) {
+				for k := 0; k < 6; k++ {
+					if st, ok := conns[ep].ConnectionState(); ok {
+						_, _ = st.ExportKeyingMaterial("EXTRACTOR-verif", nil, 16)
+					}
+					_ = conns[ep].RemoteAddr()
+					_ = conns[ep].LocalAddr()
+					_, _ = conns[ep].SelectedSRTPProtectionProfile()
+					time.Sleep(time.Duration(2+k) * time.Millisecond)
+				}
+
+				return 6, nil
+			})
+		}
 		if p.Stall {
 			for _, ep := range targets {
 				socks[ep].SetStall(true)
